@@ -277,3 +277,58 @@ func TestC01_R_ChunkSizeLimits(t *testing.T) {
 		}
 	}
 }
+
+// zeroReader yields n zero bytes.
+type zeroReader struct{ n int64 }
+
+func (z *zeroReader) Read(p []byte) (int, error) {
+	if z.n <= 0 {
+		return 0, io.EOF
+	}
+	if int64(len(p)) > z.n {
+		p = p[:z.n]
+	}
+	for i := range p {
+		p[i] = 0
+	}
+	z.n -= int64(len(p))
+	return len(p), nil
+}
+
+// A file beyond 4 GiB: 4 GiB + 1 MiB + 5 zero bytes in 1 MiB chunks at width 2 - the store de-duplicates it
+// to a handful of blocks. Lengths below the root must not be truncated to 32 bits.
+func TestC01_R_Over4GiB(t *testing.T) {
+	n := int64(4)<<30 + 1<<20 + 5
+	st := NewStore()
+	root, _, err := buildFileR(st.LinkSystem(), &zeroReader{n: n}, "size-1048576", 2)
+	if err != nil {
+		t.Fatal(err)
+	}
+	bi, err := st.Decode(root)
+	if err != nil || bi.UFS == nil || bi.UFS.GetFilesize() != uint64(n) {
+		t.Fatalf("C01 >4GiB: declared FileSize %v, want %d", bi.UFS.GetFilesize(), n)
+	}
+	sum := uint64(0)
+	for _, b := range bi.UFS.Blocksizes {
+		sum += b
+	}
+	if sum != uint64(n) {
+		t.Fatalf("C01 >4GiB: root BlockSizes sum to %d, want %d", sum, n)
+	}
+	rn, err := c01Open(st, root, "Reify")
+	if err != nil {
+		t.Fatal(err)
+	}
+	rs, _ := rn.(datamodel.LargeBytesNode).AsLargeBytes()
+	if end, err := rs.Seek(0, io.SeekEnd); err != nil || end != n {
+		t.Fatalf("C01 >4GiB: Seek(0,End) = %d,%v want %d", end, err, n)
+	}
+	// the last 1 MiB + 5 bytes read back as zeros and then EOF
+	if _, err := rs.Seek(n-(1<<20)-5, io.SeekStart); err != nil {
+		t.Fatal(err)
+	}
+	tail, err := io.ReadAll(rs)
+	if err != nil || len(tail) != 1<<20+5 {
+		t.Fatalf("C01 >4GiB: tail read %d bytes, err %v", len(tail), err)
+	}
+}
